@@ -1459,6 +1459,9 @@ class _tzparser(object):
 
                 i += 1
 
+                # A comma must be followed by the daylight saving rules
+                assert i < len_l
+
             if i >= len_l:
                 pass
             elif (8 <= l.count(',') <= 9 and
